@@ -99,6 +99,24 @@ pub fn check_soup(case: &SoupCase, st: &mut Stats) -> Result<(), String> {
                 base.as_ok().map(|s| short(s, 300))
             ));
         }
+        // a later, separate <style> element is parsed on its own: whatever state the string leaves
+        // the parser in (open block, comment, string, at-rule) must not swallow its rules
+        let mut two = with.clone();
+        two.style2 = Some("* { display: none }".to_string());
+        let h2 = two.to_html();
+        let r2 = render(&on, h2.as_bytes(), w);
+        if let Some(b) = r2.bad() {
+            return Err(format!("use_doc_css, two <style> elements: {}\ncss={:?}", b, short(css, 400)));
+        }
+        if let Some(t) = vis(&r2) {
+            st.class("second_style_element_checked");
+            if !t.is_empty() {
+                return Err(format!(
+                    "a second <style> element (`* {{ display: none }}`) after one holding this string does not take effect: text {:?} is still rendered\ncss={:?}\nhtml={}",
+                    short(&t, 100), short(css, 400), short(&h2, 600)
+                ));
+            }
+        }
     } else {
         st.class("mentions_display_content_height_ws");
     }
